@@ -327,6 +327,21 @@ def ufunc_add_at(eng, args, kwargs):
     """np.add.at(a, idx, c): a[v] += c for every position of idx holding v (unbuffered: repeated indices accumulate)"""
     from .models import check_frame
 
+    from .values import NArr
+
+    if len(args) == 3 and not kwargs and isinstance(args[0], NArr) and args[0].ndim == 1 and args[0].kind == "int" and kind_of(args[2]) == "int":
+        # a target of concrete length: cell q grows by c times the number of positions of idx holding q
+        a, c = args[0], to_z3(args[2], "int")
+        idx = _as_int_sarr(eng, args[1], "np.add.at")
+        ub, L = bound(eng, idx), len(a.items)
+        check_frame(eng, a)
+        if not eng.spec_mode:
+            if not eng.branch(eng.sbool(FA(idx.nz(), ub, lambda q: z3.And(idx.get(q).z >= -L, idx.get(q).z < L)))):
+                raise ProgExc(IndexError, "index out of bounds in np.add.at")
+            eng.prove(eng.site("add-at-non-negative-indices"), FA(idx.nz(), ub, lambda q: idx.get(q).z >= 0), "safety", "np.add.at with negative (wrapping) indices is not modelled")
+        used(eng, "np.add.at(a, idx, c): a[v] grows by c times the number of positions of idx holding v")
+        a.items = [eng.snum(z3.simplify(to_z3(x, "int") + c * filtered_count(eng, idx, z3.IntVal(q))), "int") for q, x in enumerate(a.items)]
+        return None
     if len(args) != 3 or kwargs or not isinstance(args[0], SArr) or args[0].kind != "int" or kind_of(args[2]) != "int" or getattr(args[0], "view_of", None) is not None:
         raise Unsupported("np.add.at form (modelled: np.add.at(1-D int array, 1-D int index array, int))")
     a, c = args[0], to_z3(args[2], "int")
@@ -370,6 +385,10 @@ def np_max(eng, args, kwargs):
     initial = kw.pop("initial", None)
     if len(args) == 1 and not kw and isinstance(args[0], SArr) and args[0].kind in ("int", "real") and not hasattr(args[0], "__pyvc_getitem__"):
         return _arr_max(eng, args[0], initial, "np.max(1-D array, initial=)")
+    from .values import NArr
+
+    if len(args) == 1 and not kw and initial is not None and isinstance(args[0], NArr) and args[0].ndim == 1 and args[0].kind == "int":
+        return _arr_max(eng, _as_int_sarr(eng, args[0], "np.max"), initial, "np.max(1-D array, initial=)")
     prev = _PREV.get(np.max)
     if prev is None or initial is not None:
         raise Unsupported("np.max form")
@@ -664,6 +683,12 @@ def install():
     models.EXTRA_MODELS[np.add.at] = ufunc_add_at
     models.EXTRA_MODELS[np.max] = np_max
     models.EXTRA_MODELS[np.amax] = np_max
+    try:  # np.zeros / np.full with a symbolic 1-D length (additive: concrete shapes go to the stock models)
+        from . import ext_C01
+
+        ext_C01.install()
+    except Exception:  # noqa: BLE001 - without it np.zeros(n) of a symbolic n stays unsupported
+        pass
     if npmodels.mask_filter is not mask_filter:
         npmodels.mask_filter = mask_filter  # a[mask] on an array whose length has a known bound: the same facts, written out
         npmodels.ARR_METHODS["any"] = _bounded_any_all(False, npmodels.ARR_METHODS["any"])
